@@ -26,7 +26,8 @@ Inductive err := ESyntax (f : nat) | ENoFile | EUnres (f : nat) | EObj (f : nat)
 
 (* metamodel configuration: global repository, RREL '+m:' provider attached to the
    references (imports are followed only when the file has a reference), builtin models *)
-Record cfg := mkCfg { cglobal : bool; clazy : bool; cbuiltins : list nat }.
+Record cfg := mkCfg { cglobal : bool; clazy : bool; cbuiltins : list nat;
+                      cunique : bool (* PlainName inside: a name defined twice in the model it is found in is refused *) }.
 
 (* ---------- insertion-ordered dictionaries (Python dict) *)
 Fixpoint dget {A} (k : nat) (l : list (nat * A)) : option A :=
@@ -203,12 +204,20 @@ Definition search_list (c : cfg) (s : state) (x : nat) : list nat := flat_map (s
 Definition resolve_name (c : cfg) (s : state) (x : nat) (n : N) : option (nat * nat) :=
   first_some (lookup_in s n) (search_list c s x).
 
+(* PlainName (multi_metamodel_support) collects every element of the searched model with that name and raises
+   'name ... is not unique' when there are several; FQN and RREL take the first.  The search stops at the first model
+   that has the name, so only that model's duplicates matter. *)
+Fixpoint count_elem (n : N) (es : list N) : nat :=
+  match es with [] => 0 | e :: t => (if N.eqb e n then 1 else 0) + count_elem n t end.
+Definition dup_in (s : state) (n : N) (m : nat) : bool :=
+  match cont_of m s with Some fc => Nat.ltb 1 (count_elem n (felems fc)) | None => false end.
 Fixpoint resolve_refs (c : cfg) (s : state) (x : nat) (ns : list N) : option (list (option (nat * nat))) :=
   match ns with
   | [] => Some []
   | n :: t => match resolve_name c s x n with
               | None => None
-              | Some tg => option_map (cons (Some tg)) (resolve_refs c s x t)
+              | Some tg => if (cunique c && dup_in s n (fst tg))%bool then None
+                           else option_map (cons (Some tg)) (resolve_refs c s x t)
               end
   end.
 Definition refs_of (m : nat) (s : state) : list N := match cont_of m s with Some fc => frefs fc | None => [] end.
@@ -376,7 +385,7 @@ Definition ml_load (fs : list file) (mc : mlcfg) (f : nat) (ms : state * list (n
   : (err + nat) * (state * list (nat * list (nat * nat))) :=
   let '(s, repos) := ms in
   let L := lang mc f in
-  let c := mkCfg (lglob mc L) false [] in
+  let c := mkCfg (lglob mc L) false [] false in
   let s0 := with_allm s (if lglob mc L then repo_of repos L else []) in
   let xvals := flat_map (fun Lr => if Nat.eqb (fst Lr) L then [] else map snd (snd Lr)) repos in
   let r := load_main_x (ext_of mc repos L) xvals fs c f s0 in
@@ -393,7 +402,18 @@ Fixpoint set_nth {A} (i : nat) (x : A) (l : list A) : list A :=
 (* initial state: the builtin models are the first heap entries *)
 Definition init_state (builtins : list file) : state :=
   mkState (map (fun fc => mkMinfo 0 0 fc) builtins) [] [] [] [] [] 0.
-Definition init_cfg (glob lazy : bool) (builtins : list file) : cfg := mkCfg glob lazy (seq 0 (length builtins)).
+Definition init_cfg_u (uniq glob lazy : bool) (builtins : list file) : cfg := mkCfg glob lazy (seq 0 (length builtins)) uniq.
+Definition init_cfg (glob lazy : bool) (builtins : list file) : cfg := init_cfg_u false glob lazy builtins.
+
+(* histories over several languages (string loads are single-language operations and are skipped here) *)
+Fixpoint ml_hist (mc : mlcfg) (fs : list file) (ms : state * list (nat * list (nat * nat))) (ops : list op)
+  : state * list (nat * list (nat * nat)) :=
+  match ops with
+  | [] => ms
+  | OWrite f fc :: t => ml_hist mc (set_nth f fc fs) ms t
+  | OLoad f :: t => ml_hist mc fs (snd (ml_load fs mc f ms)) t
+  | OLoadStr _ :: t => ml_hist mc fs ms t
+  end.
 
 (* the state after a history of loads and rewrites *)
 Fixpoint run_hist (c : cfg) (fs : list file) (s : state) (ops : list op) : state :=
